@@ -349,3 +349,58 @@ def r7(ctx, R):
         return
     R.check(even == -1 and odd == 0, 'get_steps :: centre: n - (derivative + order) is -1 for even and 0 for odd derivatives', w, {'even derivative': -1, 'odd derivative': 0}, {'even derivative': str(even), 'odd derivative': str(odd), 'n': ast.unparse(defs['n'])})
     R.check(ast.unparse(defs['steps']) == 'np.arange(n) - n // 2', 'get_steps :: centre: offsets are 0..n-1 shifted by n // 2', w, 'np.arange(n) - n // 2', ast.unparse(defs['steps']))
+
+
+MUTATORS = ('update', 'setdefault', 'pop', 'popitem', 'clear', 'append', 'extend', 'insert', 'remove')
+
+
+def _table_mutations(fn):
+    """(tables, mutations): names bound to a NON-EMPTY dict display before a loop and read inside that loop, and the in-place
+    changes of such a name inside the loop (mutating call, subscript store, augmented assignment, rebinding)"""
+    tables, muts = [], []
+    binds = {}
+    for s in walk_no_nested(fn):
+        if isinstance(s, ast.Assign) and len(s.targets) == 1 and isinstance(s.targets[0], ast.Name) and isinstance(s.value, ast.Dict) and s.value.keys:
+            binds.setdefault(s.targets[0].id, s)
+    for l in walk_no_nested(fn):
+        if not isinstance(l, (ast.For, ast.While)):
+            continue
+        inner = list(ast.walk(l))
+        for name, b in binds.items():
+            if b.lineno >= l.lineno or not any(isinstance(x, ast.Name) and x.id == name for x in inner):
+                continue
+            tables.append((name, l.lineno))
+            for x in inner:
+                if isinstance(x, ast.Call) and isinstance(x.func, ast.Attribute) and x.func.attr in MUTATORS and isinstance(x.func.value, ast.Name) and x.func.value.id == name:
+                    muts.append(f'line {x.lineno}: {ast.unparse(x)[:70]}')
+                tg = x.targets if isinstance(x, ast.Assign) else [x.target] if isinstance(x, ast.AugAssign) else []
+                for t in tg:
+                    bb = t
+                    while isinstance(bb, ast.Subscript):
+                        bb = bb.value
+                    if isinstance(bb, ast.Name) and bb.id == name:
+                        muts.append(f'line {x.lineno}: {ast.unparse(x)[:70]}')
+    return tables, muts
+
+
+_CONTROL_TABLE = "def f(sides):\n    defaults = {'val': 0.0}\n    out = []\n    for s in sides:\n        defaults.update(s)\n        out.append(defaults.copy())\n    return out\n"
+
+
+@rule('C18', 'C18.R8', 'the two sides of the boundary closure are parametrised independently: a table of default parameters bound before the loop over the sides is only READ inside it (merged into a new dict per side) - an in-place update would carry the left side\'s value / reduce / order over to the right side', floor=1)
+def r8(ctx, R):
+    repo = ctx.repo
+    t, m = _table_mutations(ast.parse(_CONTROL_TABLE).body[0])
+    R.check(bool(t) and len(m) == 1, 'positive control :: a defaults table updated inside the loop is recognised in the embedded example', 'sa/rules/c18.py:_CONTROL_TABLE', 'one in-loop mutation', m)
+    n = 0
+    for mod, ci, fn in repo.all_functions():
+        if mod.relpath != PH:
+            continue
+        tables, muts = _table_mutations(fn)
+        for name, ln in tables:
+            n += 1
+            w = f'{PH}:{fn.name}'
+            R.fn(w)
+            mine = [x for x in muts if re.search(rf'\b{name}\b', x)]
+            R.check(not mine, f'{fn.name} :: the table `{name}` is not modified inside the loop that reads it (line {ln})', w, 'read-only use: {**table, **given} / table.copy()', mine)
+    if not n:
+        raise AnalysisError('C18.R8: the confirmed defaults table (bc_params_defaults in get_finite_difference_matrix) not found')
